@@ -67,7 +67,7 @@ def check(ctx):
     r1(ctx)
     r2(ctx)
     r3(ctx)
-    r5(ctx)
+    r5_tensor(ctx)
     r6(ctx)
     r7_tensor(ctx)
     r8(ctx)
@@ -214,118 +214,6 @@ def r3(ctx):
                    "%s evaluates %r; the definition is %r" % (q, got, w))
     al = ctx.py.mod(SHAPE).module_assign("relative_shape_antisotropy")
     ctx.decide(al is not None and src(al) == "relative_shape_anisotropy", "C16-R3", al or fn, SHAPE, "relative_shape_antisotropy", "alias of relative_shape_anisotropy", "", "the legacy alias points elsewhere")
-
-
-# ---------------------------------------------------------------------------------------------------
-def r5(ctx):
-    ctx.analysed_files.add(CONTACT)
-    fn = ctx.py.func(CONTACT, "compute_contacts")
-    # membership per scheme
-    mem = {}
-    for n in ast.walk(fn):
-        if isinstance(n, ast.If) and isinstance(n.test, ast.Compare) and _n(src(n.test.left)) == "scheme" and isinstance(n.test.comparators[0], ast.Constant):
-            sch = n.test.comparators[0].value
-            for st in n.body:
-                if isinstance(st, ast.Assign) and dotted(st.targets[0]) == "residue_membership":
-                    mem[sch] = _n(src(st.value))
-    def cond_kinds(node):
-        """kinds of the filter conditions of the innermost `for atom in residue.atoms` comprehension(s) found in node"""
-        res = []
-        for c in ast.walk(node):
-            if isinstance(c, ast.ListComp) and _n(src(c.generators[0].iter)) == "residue.atoms" and _n(src(c.elt)) == "atom.index":
-                kinds = set()
-                conds = []
-                for i_ in c.generators[0].ifs:
-                    conds.extend(i_.values if isinstance(i_, ast.BoolOp) and isinstance(i_.op, ast.And) else [i_])
-                for k in conds:
-                    t = _n(src(k))
-                    if t == "atom.is_sidechain":
-                        kinds.add("sidechain")
-                    elif t in ("notatom.element==element.hydrogen", "atom.element!=element.hydrogen", "not(atom.element==element.hydrogen)", "(notatom.element==element.hydrogen)"):
-                        kinds.add("heavy")
-                    else:
-                        kinds.add("?" + t)
-                res.append(frozenset(kinds))
-        return res
-    memn = {}
-    for n in ast.walk(fn):
-        if isinstance(n, ast.If) and isinstance(n.test, ast.Compare) and _n(src(n.test.left)) == "scheme" and isinstance(n.test.comparators[0], ast.Constant):
-            for st in n.body:
-                if isinstance(st, ast.Assign) and dotted(st.targets[0]) == "residue_membership":
-                    memn[n.test.comparators[0].value] = st.value
-    want_filters = {"closest": [frozenset()], "closest-heavy": [frozenset({"heavy"})], "sidechain": [frozenset({"sidechain"})],
-                    "sidechain-heavy": [frozenset({"sidechain", "heavy"}), frozenset({"sidechain"})]}
-    for sch, want in want_filters.items():
-        node = memn.get(sch)
-        got = cond_kinds(node) if node is not None else None
-        ok = got is not None and sorted(got, key=sorted) == sorted(want, key=sorted) and "forresidueintraj.topology.residues" in _n(src(node))
-        if ok and sch == "sidechain-heavy":
-            ok = "ifnotresidue.name=='GLY'else" in _n(src(node)).replace('"', "'")
-        ctx.decide(ok, "C16-R5", node or fn, CONTACT, "compute_contacts", "scheme %r: per-residue atom lists filtered by %s" % (sch, [sorted(w) for w in want]), "",
-                   "membership for %r filters atoms by %s" % (sch, [sorted(g) for g in got] if got is not None else None))
-    # product / counts / offsets
-    loops = [n for n in ast.walk(fn) if isinstance(n, ast.For) and _n(src(n.iter)) == "residue_pairs" and any(isinstance(c, ast.Call) and (call_name(c) or "").endswith("product") for c in ast.walk(n))]
-    if not loops:
-        raise AnalysisError("compute_contacts: pair loop with itertools.product not found")
-    lp = loops[0]
-    pv = dotted(lp.target)
-    prod = [c for c in ast.walk(lp) if isinstance(c, ast.Call) and (call_name(c) or "").endswith("product")][0]
-    pa = [_n(src(a)) for a in prod.args]
-    ctx.decide(pa == ["residue_membership[%s[0]]" % pv, "residue_membership[%s[1]]" % pv], "C16-R5", prod, CONTACT, "compute_contacts", "atom pairs = product(membership[p0], membership[p1])", "", "product arguments are %s" % pa)
-    cnt = [c for c in ast.walk(lp) if isinstance(c, ast.Call) and _n(src(c.func)) == "n_atom_pairs_per_residue_pair.append"]
-    ok = len(cnt) == 1 and _n(src(cnt[0].args[0])) in ("residue_lens[%s[0]]*residue_lens[%s[1]]" % (pv, pv), "residue_lens[%s[1]]*residue_lens[%s[0]]" % (pv, pv))
-    ctx.decide(ok, "C16-R5", cnt[0] if cnt else lp, CONTACT, "compute_contacts", "count = len(membership[p0]) * len(membership[p1]) for the same pair", "", "per-pair count is %s" % (src(cnt[0].args[0]) if cnt else None))
-    rl = [n for n in ast.walk(fn) if isinstance(n, ast.Assign) and dotted(n.targets[0]) == "residue_lens"]
-    ctx.decide(bool(rl) and _n(src(rl[0].value)) == "[len(ainds)foraindsinresidue_membership]", "C16-R5", rl[0] if rl else fn, CONTACT, "compute_contacts", "residue_lens = lengths of the membership lists", "", "residue_lens is %s" % (src(rl[0].value) if rl else None))
-    ext = [c for c in ast.walk(lp) if isinstance(c, ast.Call) and _n(src(c.func)) == "atom_pairs.extend"]
-    ctx.decide(len(ext) == 1 and any(x is prod for x in ast.walk(ext[0])), "C16-R5", ext[0] if ext else lp, CONTACT, "compute_contacts", "the product is appended to atom_pairs in pair order", "", "atom_pairs is not extended by the product")
-    sq = [n for n in ast.walk(fn) if isinstance(n, ast.For) and _n(src(n.iter)) == "range(n_residue_pairs)"]
-    if not sq:
-        raise AnalysisError("compute_contacts: squash loop not found")
-    sl = sq[0]
-    iv = dotted(sl.target)
-    a = {dotted(st.targets[0]): _n(src(st.value)) for st in sl.body if isinstance(st, ast.Assign) and isinstance(st.targets[0], ast.Name)}
-    ok = a.get("index") == "int(np.sum(n_atom_pairs_per_residue_pair[:%s]))" % iv and a.get("n") == "n_atom_pairs_per_residue_pair[%s]" % iv
-    ctx.decide(ok, "C16-R5", sl, CONTACT, "compute_contacts", "offset = sum(counts[:i]), n = counts[i]", "", "offset / length are %s" % a)
-    stores = [st for st in ast.walk(sl) if isinstance(st, ast.Assign) and isinstance(st.targets[0], ast.Subscript) and _n(src(st.targets[0])) == "distances[:,%s]" % iv]
-    hard = [st for st in stores if ".min(axis=1)" in _n(src(st.value))]
-    soft = [st for st in stores if "np.log" in src(st.value)]
-    ok = len(hard) == 1 and _n(src(hard[0].value)) == "atom_distances[:,index:index+n].min(axis=1)"
-    ctx.decide(ok, "C16-R5", hard[0] if hard else sl, CONTACT, "compute_contacts", "contact i = min over columns [offset, offset+n)", "", "hard minimum is %s" % (src(hard[0].value) if hard else None))
-    okq = len(soft) == 1 and re.sub(r"casting='safe',?", "", _n(src(soft[0].value)).replace('"', "'")) in (
-        "soft_min_beta/np.log(np.sum(np.exp(soft_min_beta/atom_distances[:,index:index+n],),axis=1),)", "soft_min_beta/np.log(np.sum(np.exp(soft_min_beta/atom_distances[:,index:index+n]),axis=1))",
-        "soft_min_beta/np.log(np.sum(np.exp(soft_min_beta/atom_distances[:,index:index+n],),axis=1))")
-    ctx.decide(okq, "C16-R5", soft[0] if soft else sl, CONTACT, "compute_contacts", "soft minimum = beta / log sum exp(beta / d) over the same columns", "", "soft minimum is %s" % (_n(src(soft[0].value)) if soft else None))
-    guard = [n for n in sl.body if isinstance(n, ast.If) and _n(src(n.test)) == "notsoft_min"]
-    ctx.decide(len(guard) == 1 and hard and hard[0] in guard[0].body and soft and soft[0] in guard[0].orelse, "C16-R5", guard[0] if guard else sl, CONTACT, "compute_contacts", "hard minimum unless soft_min", "", "the soft_min switch is inverted or missing")
-    dist = [n for n in ast.walk(fn) if isinstance(n, ast.Assign) and dotted(n.targets[0]) == "atom_distances"]
-    ok = bool(dist) and _n(src(dist[0].value)) == "md.compute_distances(traj,atom_pairs,periodic=periodic)"
-    ctx.decide(ok, "C16-R5", dist[0] if dist else fn, CONTACT, "compute_contacts", "atom distances for atom_pairs, periodic forwarded", "", "atom distances are %s" % (src(dist[0].value) if dist else None))
-    # 'ca' scheme: pairs and labels appended together
-    ca = [n for n in ast.walk(fn) if isinstance(n, ast.If) and _n(src(n.test)).replace('"', "'") == "scheme=='ca'"]
-    ok = False
-    if ca:
-        t = _n(src(ast.Module(body=ca[0].body, type_ignores=[])))
-        apps = [(n, _n(src(n))) for n in ast.walk(ast.Module(body=ca[0].body, type_ignores=[])) if isinstance(n, ast.Call) and _n(src(n.func)) in ("atom_pairs.append", "filtered_residue_pairs.append")]
-        same_block = False
-        for blk in ast.walk(ast.Module(body=ca[0].body, type_ignores=[])):
-            for fld in ("body", "orelse"):
-                stmts = getattr(blk, fld, None)
-                if isinstance(stmts, list):
-                    names = [_n(src(x.value.func)) for x in stmts if isinstance(x, ast.Expr) and isinstance(x.value, ast.Call)]
-                    if "atom_pairs.append" in names and "filtered_residue_pairs.append" in names:
-                        same_block = True
-        ok = len(apps) == 2 and same_block and "residue_pairs=np.array(filtered_residue_pairs)" in t
-    ctx.decide(ok, "C16-R5", ca[0] if ca else fn, CONTACT, "compute_contacts", "scheme 'ca': atom pair and residue label are appended in the same branch; labels = filtered pairs", "", "the CA scheme no longer filters labels in lock-step with the atom pairs")
-    # the list handed to compute_distances is the list that was built: no reordering between the appends and the call
-    if ca:
-        blk = ast.Module(body=ca[0].body, type_ignores=[])
-        reb = [n for n in ast.walk(blk) if isinstance(n, ast.Assign) and dotted(n.targets[0]) == "atom_pairs" and not (isinstance(n.value, ast.List) and not n.value.elts)]
-        mut = [n for n in ast.walk(blk) if isinstance(n, ast.Call) and isinstance(n.func, ast.Attribute) and dotted(n.func.value) == "atom_pairs" and n.func.attr in ("sort", "reverse", "insert", "pop", "remove")]
-        ctx.decide(not reb and not mut, "C16-R5", (reb + mut)[0] if (reb + mut) else ca[0], CONTACT, "compute_contacts", "scheme 'ca': atom_pairs is only appended to (order = order of the labels)", "",
-                   "`%s` reorders the atom pairs after the residue labels were collected: distance columns no longer sit under their residue pair" % (src((reb + mut)[0])[:60] if (reb + mut) else ""))
-    ret = [n for n in walk_no_nested(fn) if isinstance(n, ast.Return)]
-    ctx.decide(bool(ret) and _n(src(ret[-1].value)) == "(distances,residue_pairs)", "C16-R5", ret[-1] if ret else fn, CONTACT, "compute_contacts", "returns (distances, residue_pairs)", "", "return value changed")
 
 
 # ---------------------------------------------------------------------------------------------------
@@ -718,3 +606,144 @@ def r7_tensor(ctx):
             ctx.violated("C16-R7", fn, RDF, "compute_rdf_t", what, "the weights of the chunks sum to zero")
         except (TUnsupported, PUnsupported) as e:
             ctx.undecided("C16-R7", fn, RDF, "compute_rdf_t", what, "not evaluable: %s" % e)
+
+
+# ---------------------------------------------------------------------------------------------------
+def _contact_model():
+    """10 residues of unequal size in two chains: alanines, glycines (side chain = one hydrogen), a water without CA, hydrogens in side chains"""
+    H, Cc, Nn, Oo = Obj(symbol="H"), Obj(symbol="C"), Obj(symbol="N"), Obj(symbol="O")
+    spec = [
+        ("A", "ALA", [("N", Nn, False), ("CA", Cc, False), ("CB", Cc, True), ("HB1", H, True)]),
+        ("A", "GLY", [("N", Nn, False), ("CA", Cc, False), ("HA2", H, True)]),
+        ("A", "SER", [("N", Nn, False), ("CA", Cc, False), ("CB", Cc, True), ("OG", Oo, True), ("HG", H, True)]),
+        ("A", "HOH", [("O", Oo, False), ("H1", H, False)]),
+        ("A", "ALA", [("CA", Cc, False), ("CB", Cc, True)]),
+        ("A", "LYS", [("N", Nn, False), ("CA", Cc, False), ("CB", Cc, True), ("HB2", H, True), ("NZ", Nn, True)]),
+        ("B", "ALA", [("CA", Cc, False), ("CB", Cc, True)]),
+        ("B", "GLY", [("CA", Cc, False), ("HA2", H, True)]),
+        ("B", "VAL", [("CA", Cc, False), ("CB", Cc, True), ("HB", H, True)]),
+        ("B", "ALA", [("CA", Cc, False), ("CB", Cc, True)]),
+    ]
+    chains = {"A": Obj(index=0), "B": Obj(index=1)}
+    residues, atoms = [], []
+    for ri, (ch, name, ats) in enumerate(spec):
+        r = Obj(index=ri, name=name, chain=chains[ch], atoms=[])
+        for (an, el, sc) in ats:
+            a = Obj(index=len(atoms), name=an, element=el, is_sidechain=sc, residue=r)
+            atoms.append(a)
+            r.atoms.append(a)
+        residues.append(r)
+    top = Obj(atoms=atoms, residues=residues, n_atoms=len(atoms), n_residues=len(residues))
+    top.residue = lambda i: residues[int(i)]
+    top.atom = lambda i: atoms[int(i)]
+    traj = Obj(topology=top, top=top, n_frames=N_F, n_atoms=len(atoms), n_residues=len(residues))
+    return traj, residues, H
+
+
+def r5_tensor(ctx):
+    """compute_contacts evaluated on a model topology: which residue pairs are reported, which atom pairs stand behind each reported distance
+    (per scheme), that the minimum / soft minimum is taken over exactly those, and that labels and columns stay in lock-step."""
+    fn = ctx.py.func(CONTACT, "compute_contacts")
+    ctx.analysed_files.add(CONTACT)
+    ctx.analysed_functions.add(CONTACT + ":compute_contacts")
+    traj, residues, H = _contact_model()
+
+    class _Elements(Obj):
+        """mdtraj.core.element as the function sees it: hydrogen is the model's hydrogen, any other name a distinct element"""
+        def __getattr__(self, name):
+            if name.startswith("_"):
+                raise AttributeError(name)
+            o = Obj(symbol=name)
+            self.__dict__[name] = o
+            return o
+    elements = _Elements(hydrogen=H)
+
+    def members(scheme, r):
+        if scheme == "ca":
+            return [a.index for a in r.atoms if a.name.lower() == "ca"]
+        if scheme == "closest":
+            return [a.index for a in r.atoms]
+        if scheme == "closest-heavy":
+            return [a.index for a in r.atoms if a.element is not H]
+        if scheme == "sidechain":
+            return [a.index for a in r.atoms if a.is_sidechain]
+        if r.name == "GLY":
+            return [a.index for a in r.atoms if a.is_sidechain]
+        return [a.index for a in r.atoms if a.is_sidechain and a.element is not H]
+
+    def dsym(f, i, j):
+        i, j = sorted((i, j))
+        return "d[%d,%d,%d]" % (f, i, j)
+    log = {}
+
+    def dist_model(ev, call):
+        prs = ev.ex(call.args[1])
+        prs = [(ev.pyval(p_[0]), ev.pyval(p_[1])) for p_ in ev.iterate(prs)] if not isinstance(prs, Ten) else [(ev.pyval(prs.at([k, 0])), ev.pyval(prs.at([k, 1]))) for k in range(prs.shape[0])]
+        log["periodic"] = ev.kw(call, "periodic", 2, "<default>")
+        log["pairs"] = prs
+        return Ten((N_F, len(prs)), [Rat(Poly.var(dsym(f, i, j))) for f in range(N_F) for (i, j) in prs])
+    all_pairs = [(i, j) for i in range(10) for j in range(i + 3, 10) if residues[i].chain is residues[j].chain]
+    protein = [r.index for r in residues if any(a.name == "CA" for a in r.atoms)]
+    explicit = [(0, 2), (2, 5), (1, 8), (5, 0), (4, 6)]
+    cases = []
+    for scheme in ("closest", "closest-heavy", "sidechain", "sidechain-heavy", "ca"):
+        cases.append((scheme, "all", True, False, [p_ for p_ in all_pairs if p_[0] in protein and p_[1] in protein]))
+        cases.append((scheme, explicit, True, False, explicit))
+    cases.append(("closest", "all", False, False, all_pairs))
+    cases.append(("closest-heavy", explicit, True, True, explicit))
+    cases.append(("ca", [(0, 2), (0, 3), (3, 5), (1, 8)], True, False, [(0, 2), (1, 8)]))
+    beta = Rat(Poly.var("beta"))
+    for scheme, contacts, ignore, soft, want_pairs in cases:
+        what = "scheme=%r, contacts=%s%s%s" % (scheme, "'all'" if contacts == "all" else contacts, "" if ignore else ", ignore_nonprotein=False", ", soft_min" if soft else "")
+        ts = TenSym({"element": elements, "__g_element": elements}, models={"md.compute_distances": dist_model, "compute_distances": dist_model})
+        log.clear()
+        try:
+            cval = contacts if contacts == "all" else Ten((len(contacts), 2), [Rat(Poly.const(v)) for p_ in contacts for v in p_])
+            got = ts.run_fn(fn, traj=traj, contacts=cval, scheme=scheme, ignore_nonprotein=ignore, soft_min=soft, soft_min_beta=beta, periodic="<periodic>")
+        except ShapeError as e:
+            ctx.violated("C16-R5", fn, CONTACT, "compute_contacts", what, "array operations do not fit: %s" % e)
+            continue
+        except (TUnsupported, PUnsupported) as e:
+            ctx.undecided("C16-R5", fn, CONTACT, "compute_contacts", what, "not evaluable: %s" % e)
+            continue
+        if not (isinstance(got, tuple) and len(got) == 2):
+            ctx.violated("C16-R5", fn, CONTACT, "compute_contacts", what, "does not return (distances, residue_pairs)")
+            continue
+        dist, labels = got
+        try:
+            lab = [(ts.pyval(labels.at([k, 0])), ts.pyval(labels.at([k, 1]))) for k in range(labels.shape[0])] if isinstance(labels, Ten) and labels.ndim == 2 else [tuple(ts.pyval(x) for x in ts.iterate(p_)) for p_ in ts.iterate(labels)]
+        except Exception:
+            lab = None
+        ok = lab == [tuple(p_) for p_ in want_pairs]
+        problem = None if ok else "reported residue pairs are %s, expected %s" % (lab, want_pairs)
+        if ok and not (isinstance(dist, Ten) and dist.shape == (N_F, len(want_pairs))):
+            problem = "distances have shape %s for %d residue pairs and %d frames" % (getattr(dist, "shape", None), len(want_pairs), N_F)
+        if problem is None and log.get("periodic") != "<periodic>":
+            problem = "compute_distances is called with periodic=%r instead of the caller's value" % (log.get("periodic"),)
+        if problem is None:
+            mins = {repr(c[2].at([f])): (c[1][0], c[1][1], f) for c in ts.calls if c[0] == "min" for f in range(N_F)}
+            for k, (r0, r1) in enumerate(want_pairs):
+                exp = sorted(dsym(0, a, b)[2:] for a in members(scheme, residues[r0]) for b in members(scheme, residues[r1]))
+                for f in range(N_F):
+                    v = dist.at([f, k])
+                    expf = sorted(dsym(f, a, b) for a in members(scheme, residues[r0]) for b in members(scheme, residues[r1]))
+                    if scheme == "ca":
+                        good = len(expf) == 1 and repr(v) == expf[0]
+                        seen = repr(v)
+                    elif not soft:
+                        m = mins.get(repr(v))
+                        seen = sorted(repr(x) for x in ts.getitem(m[0], m[2]).data) if m and m[1] in (1, -1) else repr(v)[:80]
+                        good = seen == expf
+                    else:
+                        tot = Rat(Poly.const(0))
+                        for nm in expf:
+                            tot = tot + ts.fn("exp", beta / Rat(Poly.var(nm)))
+                        good = ts.equal(v, beta / ts.fn("log", tot))
+                        seen = repr(ts.reduce(v))[:120]
+                    if not good:
+                        problem = "column %d (residues %d-%d), frame %d is taken over %s; the scheme designates the atom pairs %s" % (k, r0, r1, f, seen, expf)
+                        break
+                if problem:
+                    break
+        ctx.decide(problem is None, "C16-R5", fn, CONTACT, "compute_contacts", "%s: labels, and per column the %s over exactly the designated atom pairs" % (what, "soft minimum" if soft else "minimum" if scheme != "ca" else "CA-CA distance"), "",
+                   problem or "")
